@@ -699,7 +699,11 @@ class Engine:
         al = s.find_alloc(w); size = s.L.sizeof(t)
         if al is None or not al[2]: raise Violation('memory-safety: load through symbolic pointer may hit no object (%#x)' % w)
         lo, hi = al[0], al[0] + al[1] - size
-        if s.sat(z3.Or(z3.ULT(a, lo), z3.UGT(a, hi))): raise Violation('memory-safety: symbolic load may fall outside %s' % al[3])
+        if s.sat(z3.Or(z3.ULT(a, lo), z3.UGT(a, hi))):
+            # either a genuinely unbounded index, or a pointer selected among a few objects: enumerate (bounded) and fork
+            try: w = s.concretize(a, 64, limit=16)
+            except Inconclusive: raise Violation('memory-safety: symbolic load may fall outside %s' % al[3])
+            return s.load_typed(w, t)
         if al[1] > 4096: return s.load_typed(s.concretize(a, 64), t)
         groups = collections.OrderedDict()
         for off in range(0, al[1] - size + 1):
@@ -809,6 +813,14 @@ class Engine:
             if not vs or idx >= len(vs): return None
             if isinstance(want, list): conj.append(z3.Or(*[vs[idx] == w for w in want]))
             else: conj.append(vs[idx] == want)
+        for name, vals in kf.get('any', {}).items():          # some occurrence of the named nondet has one of these values
+            vs = byname.get(name)
+            if not vs: return None
+            conj.append(z3.Or(*[v == w for v in vs for w in vals]))
+        for name, (first, second) in kf.get('adjacent', {}).items():   # two consecutive occurrences with values in first / second
+            vs = byname.get(name)
+            if not vs or len(vs) < 2: return None
+            conj.append(z3.Or(*[z3.And(z3.Or(*[vs[i] == w for w in first]), z3.Or(*[vs[i + 1] == w for w in second])) for i in range(len(vs) - 1)]))
         return z3.And(*conj) if conj else z3.BoolVal(True)
     def report(s, msg, cond_false=None):
         """record a violation: msg, with cond_false the z3 condition under which it happens (None = unconditionally on this path)"""
